@@ -718,6 +718,10 @@ def run(prog, rep):
     rep.attempt(replace_refusals, ct, rep)
     rep.attempt(replace_composition, ct, rep)
     rep.attempt(write_context_admission, ct, rep)
+    # the accessors used outside a with-block open their own context only while `_inside_context` is False: __exit__ must reset the
+    # flags and close the handle on every path (also when the block is left by an exception), or later lookups hit a closed handle
+    from .c08 import handle_discipline
+    rep.attempt(handle_discipline, ct, rep)
     rep.attempt(removal_selects_type, ct, rep)
     # 'at every point': a refused add/remove must not leave a phantom entry in the in-memory table
     from ..codecs import Codecs
